@@ -929,14 +929,23 @@ def run(index: RepoIndex, rep) -> None:
                       f'{p_} <- {got[:100]}',
                       f'GridWorld parameter `{p_}` receives `{got[:100]}`, not `{wd}`',
                       f'{p_} wired')
-    txt = src(fe.node)
-    for need, what in (('state = reset_function()', 'sample reset'),
-                       ('state_space_builder.set_grid_shape(state.grid.shape)', 'state shape'),
-                       ('observation = observation_function(state)', 'sample observation'),
-                       ('observation_space_builder.set_grid_shape(observation.grid.shape)',
-                        'observation shape')):
-        rep.check(need in txt, 'C17.R6', FACTORY, 'factory_env_from_data', fe.node.lineno, need,
-                  f'spaces are not sized from a {what}: `{need}` missing', what)
+    # the spaces are sized from a sample: the state builder from the grid of one reset, the
+    # observation builder from the grid of that state's observation (locals read through)
+    RESET = "factory_reset_function(data['reset_function'])()"
+    OBSV = f"factory_observation_function(data['observation_function'])({RESET})"
+    want_sz = {("factory_state_space_builder(data['state_space'])", f'{RESET}.grid.shape'):
+               'state shape from a sample reset',
+               ("factory_observation_space_builder(data['observation_space'])",
+                f'{OBSV}.grid.shape'): 'observation shape from a sample observation'}
+    got_sz = set()
+    for e in w.events:
+        if e.kind == 'call' and isinstance(e.node.func, ast.Attribute) and \
+                e.node.func.attr == 'set_grid_shape' and len(e.node.args) == 1:
+            got_sz.add((src(w.expand(e.node.func.value)), src(w.expand(e.node.args[0]))))
+    for key, what in want_sz.items():
+        rep.check(key in got_sz, 'C17.R6', FACTORY, 'factory_env_from_data', fe.node.lineno,
+                  '; '.join(f'{a_}.set_grid_shape({b_})' for a_, b_ in sorted(got_sz))[:200],
+                  f'spaces are not sized from a sample: no {what}', what)
     sb = index.module('gym_gridverse/utils/space_builders.py')
     for cname, target in (('StateSpaceBuilder', 'StateSpace'),
                           ('ObservationSpaceBuilder', 'ObservationSpace')):
@@ -965,11 +974,21 @@ def run(index: RepoIndex, rep) -> None:
                   f'{name} returns `{"; ".join(rets)[:80]}`, not `{want}` of the validated data '
                   f'(e.g. the configured order of actions decides which index runs which '
                   f'action)', f'{name} converter')
-    txt = src(index.func(FACTORY, 'factory_env_from_data').node)
-    rep.check("factory_action_space(data['action_space']) if 'action_space' in data else "
-              "ActionSpace(list(Action))" in txt, 'C17.R6', FACTORY, 'factory_env_from_data',
-              fe.node.lineno, 'action_space = ...', 'the action space is not the configured '
-              'list (or all actions in enum order when absent)', 'action space wiring')
+    # the action space handed to GridWorld: the configured list, or every action in enum order
+    wf = walk_function(fe.node)
+    gw_calls = [e_ for e_ in wf.events if e_.kind == 'return' and
+                isinstance(e_.value, ast.Call) and src(e_.value.func) == 'GridWorld']
+    asp = ''
+    if gw_calls and len(gw_calls[0].value.args) >= 2:
+        asp = src(wf.expand(gw_calls[0].value.args[1]))
+    rep.check(asp in ("factory_action_space(data['action_space']) if 'action_space' in data else "
+                      "ActionSpace(list(Action))",
+                      "ActionSpace(list(Action)) if 'action_space' not in data else "
+                      "factory_action_space(data['action_space'])"),
+              'C17.R6', FACTORY, 'factory_env_from_data',
+              fe.node.lineno, asp[:160] or 'action_space = ...', 'the action space is not the '
+              'configured list (or all actions in enum order when absent)',
+              'action space wiring')
 
     # ---------------------------------------------------------------- R7
     declared_types_rule(index, rep, 'C17.R7')
